@@ -296,6 +296,36 @@ pub fn parse_file_internal(context: &ParseContext) -> Result<(), Error> {
     Ok(())
 }
 
+/// Deepest nesting of parentheses / longest run of unary operators handed to the grammar,
+/// which is recursive and would overflow the stack on absurdly nested input
+const MAX_NESTING: usize = 200;
+
+fn nested_too_deeply(line: &str) -> bool {
+    let (mut depth, mut run, mut in_string) = (0usize, 0usize, false);
+    for c in line.chars() {
+        match c {
+            '"' => in_string = !in_string,
+            _ if in_string => {}
+            ';' => break,
+            '(' => {
+                depth += 1;
+                if depth > MAX_NESTING {
+                    return true;
+                }
+            }
+            ')' => depth = depth.saturating_sub(1),
+            '-' | '!' | '~' => {
+                run += 1;
+                if run > MAX_NESTING {
+                    return true;
+                }
+            }
+            _ => run = 0,
+        }
+    }
+    false
+}
+
 #[derive(Clone, Copy, PartialEq, Eq, Debug)]
 pub enum NextItem {
     NewLine,
@@ -321,7 +351,9 @@ fn skip<'a>(
                 let name = context.macros.name.borrow().clone();
                 let mut items = vec![];
                 while let Some((line_num, line)) = iter.next() {
-                    if let Ok(item) = document::line(line) {
+                    if nested_too_deeply(line) {
+                        // not a directive; let it be skipped unparsed
+                    } else if let Ok(item) = document::line(line) {
                         if let Document::DirectiveLine(_, directive, _) = item {
                             if other == NextItem::EndMacro && directive == Directive::EndMacro
                                 || directive == Directive::EndM
@@ -336,7 +368,9 @@ fn skip<'a>(
                 context.macros.macroses.borrow_mut().insert(name, items);
             } else {
                 while let Some((num, line)) = iter.next() {
-                    if let Ok(item) = document::line(line) {
+                    if nested_too_deeply(line) {
+                        // not a directive; let it be skipped unparsed
+                    } else if let Ok(item) = document::line(line) {
                         if let Document::DirectiveLine(_, directive, _) = item {
                             if other == NextItem::EndIf || other == NextItem::EndIfAll {
                                 if directive == Directive::If
@@ -398,6 +432,12 @@ pub fn parse_iter<'a>(
             let line_num = line_num + 1;
             #[cfg(feature = "verif-hooks")]
             crate::verif_hooks::point("parse.line");
+            if nested_too_deeply(line) {
+                bail!(
+                    "expression is nested too deeply in {}",
+                    CodePoint { line_num, num: 1 }
+                );
+            }
             let parsed_item = document::line(line);
             if let Ok(item) = parsed_item {
                 match item {
